@@ -64,8 +64,16 @@ Weight1 == UNION {Dims[i] : i \in DOMAIN Dims}
 DimPairs == {ij \in (DOMAIN Dims) \X (DOMAIN Dims) : ij[1] < ij[2]}
 Weight2 == UNION {{Merge(a, b) : a \in Dims[ij[1]], b \in Dims[ij[2]]} : ij \in DimPairs}
 
-\* the program universes: W = 1: Base, every single deviation, Full; W = 2: also every pair of deviations
-UniverseP(W) == {Base, Full} \cup Weight1 \cup (IF W >= 2 THEN {q \in Weight2 : q # Base} ELSE {})
+\* the single deviations at their strongest level
+Strong == {[Base EXCEPT !.ann = Many, !.annAt = "both", !.kinds = "all"], [Base EXCEPT !.ns = Many],
+           [Base EXCEPT !.mapConst = Many], [Base EXCEPT !.mapDefault = Many], [Base EXCEPT !.inc = Many],
+           [Base EXCEPT !.inc = 2, !.diamond = TRUE], [Base EXCEPT !.svc = 3, !.exc = 3], [Base EXCEPT !.defs = Many],
+           [Base EXCEPT !.kinds = "all"]}
+
+\* the program universes: W = 0: Base, the strongest single deviations, Full; W = 1: Base, every single deviation, Full;
+\* W = 2: also every pair of deviations
+UniverseP(W) == IF W = 0 THEN {Base, Full} \cup Strong
+                ELSE {Base, Full} \cup Weight1 \cup (IF W >= 2 THEN {q \in Weight2 : q # Base} ELSE {})
 
 Weight(q) == IF q = Full THEN 99
              ELSE IF q = Base THEN 0 ELSE IF q \in Weight1 THEN 1 ELSE 2
@@ -117,8 +125,9 @@ ConfigsQuick ==
 \* thorough: every single option, every pair of core options, the plugin and recursion variants
 OptSets1 == {{}} \cup {{o} : o \in CoreOpts \cup MoreOpts}
 OptSets2 == {{a, b} : a \in CoreOpts, b \in CoreOpts} \cup {{"with_reflection", "with_field_mask", o} : o \in CoreOpts}
+ConfigsMore == {Cfg("s", "go", {o}, "none", TRUE) : o \in MoreOpts}
 ConfigsSingles ==
-  {c \in {Cfg("s", b, o, "none", TRUE) : b \in {"go"}, o \in OptSets1} : ValidCfg(c)}
+  {c \in {Cfg("s", "go", o, "none", TRUE) : o \in {{}} \cup {{o} : o \in CoreOpts}} : ValidCfg(c)}
   \cup {Cfg("s", "fastgo", o, "none", TRUE) : o \in {{}, {"no_fmt"}, {"with_reflection"}, {"keep_unknown_fields"}}}
   \cup {Cfg("s", "go", o, pl, r) : o \in {{}, {"with_reflection"}}, pl \in {"dump", "patch"}, r \in BOOLEAN}
   \cup {Cfg("s", "go", o, "none", FALSE) : o \in {{}, {"with_reflection"}}}
